@@ -10,6 +10,7 @@ import (
 	"fmt"
 	"math/rand"
 	"sort"
+	"sync"
 	"sync/atomic"
 
 	"github.com/aergoio/aergo-lib/db"
@@ -30,12 +31,22 @@ func Hasher(data ...[]byte) []byte {
 }
 
 var storeSeq int64
+var newDBMu sync.Mutex // aergo-lib's db.NewDB assigns a package-level logger: not safe to call concurrently
 
 // NewStore returns a fresh, empty memorydb.  dir is only a name (nothing is written unless
 // Close is called).
 func NewStore(scratch string) db.DB {
 	n := atomic.AddInt64(&storeSeq, 1)
+	newDBMu.Lock()
+	defer newDBMu.Unlock()
 	return db.NewDB(db.MemoryImpl, fmt.Sprintf("%s/s%d", scratch, n))
+}
+
+// NewStoreAt opens (or re-loads, if a dump exists) a memorydb in dir.
+func NewStoreAt(dir string) db.DB {
+	newDBMu.Lock()
+	defer newDBMu.Unlock()
+	return db.NewDB(db.MemoryImpl, dir)
 }
 
 func NewTrie(root []byte, store db.DB) *trie.Trie { return trie.NewTrie(root, Hasher, store) }
